@@ -315,14 +315,22 @@ def exact(v):
 
 _PI180 = sp.pi / 180
 
+def _scale(x, k):
+    """x*k, distributed over a *small* sum so that sin/cos see a normalised argument
+    (never expands large expressions)."""
+    if x.is_Add and len(x.args) <= 4:
+        return sp.Add(*[a * k for a in x.args])
+    return x * k
+
+
 _R_UN = {
     "neg": operator.neg,
     "abs": sp.Abs,
     "sin": sp.sin, "cos": sp.cos, "tan": sp.tan,
     "arcsin": sp.asin, "arccos": sp.acos, "arctan": sp.atan,
     "sqrt": sp.sqrt,
-    "deg2rad": lambda x: sp.expand(x * _PI180),
-    "rad2deg": lambda x: sp.expand(x / _PI180),
+    "deg2rad": lambda x: _scale(x, _PI180),
+    "rad2deg": lambda x: _scale(x, 1 / _PI180),
     "floor": sp.floor,
 }
 _R_BIN = {
